@@ -11,8 +11,9 @@ import vlib
 from vlib import Report, run_tlc, tlc_must_pass, xv_json, read_ndjson, workdir
 
 PID = "C04"
-CONF = {"quick": [(3, 3, 3, "PatternsBig"), (3, 3, 4, "PatternsSmall")],
-        "thorough": [(3, 3, 4, "PatternsBig"), (3, 3, 3, "PatternsBig")]}
+# (handles, buffers, depth, patterns, start): histories from the empty store, and every operation on every small layout
+CONF = {"quick": [(3, 3, 3, "PatternsBig", "empty"), (3, 3, 4, "PatternsSmall", "empty"), (3, 3, 1, "PatternsSmall", "any")],
+        "thorough": [(3, 3, 4, "PatternsBig", "empty"), (3, 3, 3, "PatternsBig", "empty"), (3, 3, 1, "PatternsBig", "any")]}
 RANDOM = {"quick": (300, 30), "thorough": (5000, 40)}
 CFG = """SPECIFICATION Spec
 CONSTANTS
@@ -21,6 +22,7 @@ CONSTANTS
   MaxDepth = %d
   Legacy = {%s}
   Patterns <- %s
+  Start = "%s"
 INVARIANT Refines
 INVARIANT RcOk
 CHECK_DEADLOCK FALSE
@@ -33,10 +35,10 @@ def run(tier, seed):
     vlib.build_harness()
     states = trans = cases = layouts = 0
     ops = {}
-    for (mh, mb, depth, pats) in CONF[tier]:
-        name = f"MC_C04_h{mh}b{mb}d{depth}{pats}"
+    for (mh, mb, depth, pats, start) in CONF[tier]:
+        name = f"MC_C04_h{mh}b{mb}d{depth}{pats}{start}"
         outf = os.path.join(wd, name + ".out")
-        res = run_tlc("mc/MC_C04", CFG % (mh, mb, depth, "", pats), wd, name=name, timeout=3400, to_file=outf)
+        res = run_tlc("mc/MC_C04", CFG % (mh, mb, depth, "", pats, start), wd, name=name, timeout=3400, to_file=outf)
         if res["violated"]:
             vlib.log(res["out"][-3000:])
             raise vlib.ToolError("BitstrStore does not refine Bits on the design (specification-level)")
@@ -53,7 +55,7 @@ def run(tier, seed):
                           f"{c['op']} {c['args']} on layout {json.dumps(c['pre'])[:300]}: {'; '.join(m['why'][:2])}", m)
         os.remove(outf)
     # the pinned append must still be rejected by the model checker
-    legacy = run_tlc("mc/MC_C04", CFG % (3, 3, 4, '"appendslack"', "PatternsSmall"), wd, name="MC_C04_legacy", timeout=1200,
+    legacy = run_tlc("mc/MC_C04", CFG % (3, 3, 4, '"appendslack"', "PatternsSmall", "empty"), wd, name="MC_C04_legacy", timeout=1200,
                      to_file=os.path.join(wd, "legacy.out"))
     os.remove(os.path.join(wd, "legacy.out"))
     if not legacy["violated"]:
